@@ -907,7 +907,7 @@ fn corpus() -> Vec<E> {
 
 fn main() {
     // deep recursion in the checker on nested programs: run with a large stack
-    let h = std::thread::Builder::new().stack_size(1 << 26).spawn(main2).unwrap();
+    let h = std::thread::Builder::new().stack_size(1 << 24).spawn(main2).unwrap();
     h.join().unwrap();
 }
 
@@ -967,7 +967,7 @@ fn main2() {
             cases.push((e, (n_exh % 4) as u32));
         }
     }
-    let n_rand = if args.thorough() { 15000 } else { 3000 };
+    let n_rand = if args.thorough() { 15000 } else { 2000 };
     let mut g = Gen { rng: gv::rng::Rng::new(args.seed, 33) };
     let mut too_large = 0u64;
     for _ in 0..n_rand {
@@ -1009,7 +1009,7 @@ fn main2() {
     out.add("skipped:too-large", too_large);
     let seed_s = args.seed.to_string();
     let mut lo = 0usize;
-    let batch = 500usize;
+    let batch = 200usize;
     while lo < cases.len() {
         let hi = (lo + batch).min(cases.len());
         let (los, his) = (lo.to_string(), hi.to_string());
